@@ -137,9 +137,11 @@ check_observe.failed_any = False
 # aliasing
 # ---------------------------------------------------------------------------------------------------
 
-def mutate_in_place(value, rng, depth=0, seen=None):
+def mutate_in_place(value, rng, depth=0, seen=None, donor=None):
     """Change every mutable part reachable from value in place (through public mutation interfaces of the
-    containers).  Returns the number of changes made."""
+    containers).  Returns the number of changes made.  `donor`: a value of the same field taken from another,
+    independently built object; an empty typed vector can only be edited with items it accepts, and the donor's
+    items are such items."""
     from cryptoparser.common.base import ArrayBase  # pylint: disable=import-outside-toplevel
     import collections  # pylint: disable=import-outside-toplevel
     import enum  # pylint: disable=import-outside-toplevel
@@ -162,6 +164,8 @@ def mutate_in_place(value, rng, depth=0, seen=None):
                        lambda: value.__setitem__(0, items[-1]))
         else:
             actions = (lambda: value.append(0), lambda: value.append('vf-marker'))
+            if isinstance(donor, ArrayBase) and len(donor):
+                actions = (lambda: value.append(list(donor)[0]),) + actions
         for action in actions:
             if lib.call(action).ok and list(value) != items:
                 changes += 1
@@ -299,6 +303,7 @@ def check_defaults(case):
     second = lib.call(specs.build, spec)
     if not first.ok or not second.ok:
         return []
+    donor = lib.call(specs.build, case['spec'])       # the fully specified object: a source of acceptable items
     volatile = _volatile_fields(first.value, second.value)
     baseline = _defaults_dump(first.value, volatile)
     live = [first.value]
@@ -328,7 +333,8 @@ def check_defaults(case):
                 continue
             index = op['target'] % len(live)
             field = default_fields[op['field'] % len(default_fields)]
-            changed = mutate_in_place(getattr(live[index], field), rng)
+            changed = mutate_in_place(getattr(live[index], field), rng,
+                                      donor=getattr(donor.value, field, None) if donor.ok else None)
             if changed:
                 mutations += 1
                 touched.add(index)
